@@ -61,6 +61,7 @@ type Scenario struct {
 	FreshPools      map[int][]H   `json:"-"`
 	FreshKnown      map[int][]H   `json:"-"`
 	Sweep           bool          `json:"sweep,omitempty"`      // C11: inadmissible-input sweep in every state (E2 only)
+	MaxDecideView   int           `json:"max_decide_view,omitempty"` // C09: with S silent from the start every height is decided in a view <= |S| (-1: not checked)
 	Oracle          string        `json:"oracle,omitempty"`     // extra world-level oracle: C08 | C09 | C16
 	ByzScript       []ByzStep     `json:"byz_script,omitempty"` // sends of the Byzantine member that are part of the base (cost 0)
 
@@ -214,6 +215,7 @@ type World struct {
 	steps     int
 	expiries  int
 	cutActive bool
+	cutDone   bool
 	cutLeft   int
 	restarted bool
 	byz       *byzState
@@ -360,6 +362,9 @@ func (w *World) onDecide(n *Node, b *Block) {
 		return
 	}
 	w.stats.Decisions[fmt.Sprintf("h%d/v%d", b.index-w.sc.StartHeight, n.d.ViewNumber)]++
+	if w.sc.Oracle == "C09" && w.sc.MaxDecideView >= 0 && int(n.d.ViewNumber) > w.sc.MaxDecideView {
+		w.violate("C09", "C09/decided-in-too-high-view", n, fmt.Sprintf("height %d decided in view %d with %d validators silent from the start", b.index, n.d.ViewNumber, w.sc.MaxDecideView))
+	}
 	if w.sc.Oracle == "C08" && n.d.ViewNumber != 0 {
 		w.violate("C08", "C08/decided-in-higher-view", n, fmt.Sprintf("fault-free synchronous run decided height %d in view %d", b.index, n.d.ViewNumber))
 	}
@@ -445,11 +450,19 @@ func (w *World) lagging(n *Node) bool {
 	if !ok {
 		return false
 	}
-	// only when every peer that could help has left that height
+	// last resort only: consensus at that height cannot complete any more because fewer than M validators remain there
+	// (otherwise the node is expected to catch up from recovery messages)
+	vals := w.sc.validatorsAt(n.height + 1)
+	nv := len(vals)
+	m := nv - (nv-1)/3
+	still := 0
 	for _, o := range w.nodes {
-		if o.id != n.id && o.live() && o.height <= n.height {
-			return false
+		if o.live() && o.height == n.height && slices.Contains(vals, o.id) {
+			still++
 		}
+	}
+	if still >= m {
+		return false
 	}
 	return true
 }
@@ -685,6 +698,40 @@ func (w *World) focusFilter(evs []Event) []Event {
 	return evs
 }
 
+// endCheck is the terminal-state oracle of the liveness-flavoured properties (C08, C09, C16).
+func (w *World) endCheck() {
+	o := w.sc.Oracle
+	if o == "" || w.done() || w.steps >= w.sc.MaxDepth || len(w.enabled()) != 0 {
+		return
+	}
+	key := o + "/stuck"
+	// classify: a validator that restarted with empty state proposed again for an epoch it had already proposed for
+	seenProp := map[[3]uint64]H{}
+	for _, p := range w.wire {
+		if p.typ == dbft.PrepareRequestType && p.srcNode >= 0 && w.nodes[p.srcNode].kind == kAmnesia {
+			k := [3]uint64{uint64(p.height), uint64(p.view), uint64(p.srcNode)}
+			if old, ok := seenProp[k]; ok && old != p.Hash() {
+				key = o + "/stuck/restarted-primary-reproposed"
+			}
+			seenProp[k] = p.Hash()
+		}
+	}
+	w.violate(o, key, nil, fmt.Sprintf("no event enabled (horizon of %d timer expiries reached, or deadlock) and not every live node reached the target height %d; ledger heights %v, views %v",
+		w.sc.HorizonExpiries, w.sc.target(), w.heights(), w.views()))
+}
+
+func (w *World) views() []int {
+	var r []int
+	for _, n := range w.nodes {
+		if n.live() && n.d != nil {
+			r = append(r, int(n.d.ViewNumber))
+		} else {
+			r = append(r, -1)
+		}
+	}
+	return r
+}
+
 // live: the node has a running library instance.
 func (n *Node) live() bool { return n.kind.real() && !n.crashed }
 
@@ -764,6 +811,9 @@ func (w *World) apply(e Event) {
 		n.known[e.P] = true
 	case "twin":
 		w.twinCheck(nil)
+	case "endcheck":
+		w.steps-- // not a scheduling step
+		w.endCheck()
 	case "sweep":
 		ins := sweepInputs(n)
 		if e.A >= len(ins) {
@@ -831,6 +881,21 @@ func (w *World) apply(e Event) {
 	}
 	n.fpValid = false
 	w.oracleAfterEvent(e)
+	// scripted faults of liveness scenarios take effect after the event with the given ordinal
+	if sc := w.sc; len(sc.CutSet) > 0 && w.steps == sc.CutAt && !w.cutDone {
+		w.cutDone, w.cutActive, w.cutLeft = true, true, sc.CutExp
+		// whatever is in flight to or from a cut-off node is lost
+		w.net = slices.DeleteFunc(w.net, func(f flight) bool {
+			return slices.Contains(sc.CutSet, f.dst) || (f.p.srcNode >= 0 && slices.Contains(sc.CutSet, f.p.srcNode))
+		})
+		if w.cutLeft <= 0 {
+			w.cutActive = false
+		}
+	}
+	if sc := w.sc; sc.RestartAt > 0 && w.steps == sc.RestartAt && !w.restarted {
+		w.restarted = true
+		w.restart(w.nodes[sc.RestartNode])
+	}
 }
 
 func (w *World) afterExpiry() {
@@ -968,6 +1033,12 @@ func (w *World) key() [2]uint64 {
 	}
 	if w.cutActive {
 		put(uint64(1000 + w.cutLeft))
+	}
+	if w.cutDone {
+		put(3)
+	}
+	if w.restarted {
+		put(5)
 	}
 	if w.sc.E2 != nil {
 		put(uint64(w.skips))
